@@ -18,6 +18,14 @@ M = [
  ("dec_table_typo", "src/decoder.rs", "    52,  53,  54,  55,  56,  57,  58,  59,  60,  61, ERR, SEM,", "    52,  53,  54,  55,  56,  57,  58,  59,  61,  60, ERR, SEM,", {"C12": "V"}),
  ("dec_guard_removed", "src/decoder.rs", "        if self.current_value_pos < 64 {\n          self.current_value |= (value as i64) << self.current_value_pos;\n        }", "        self.current_value |= (value as i64) << self.current_value_pos;", {"C17": "V"}),
  ("dec_line_wrap", "src/decoder.rs", "          self.generated_line += 1;", "          self.generated_line += 2;", {"C12": "V", "C17": "V"}),
+ # ---- breaking: ReplaceSource::source ----
+ ("rs_max_removed", "src/replace_source.rs", "        inner_pos = inner_pos\n          .max(replacement.end)\n          .min(inner_source_code.len() as u32);\n      }\n    }\n    source_code.push_str(",
+  "        inner_pos = replacement.end\n          .min(inner_source_code.len() as u32);\n      }\n    }\n    source_code.push_str(", {"C05": "V"}),
+ ("rs_clamp_removed", "src/replace_source.rs", "        let end_pos = (replacement.start as usize).min(inner_source_code.len());\n        source_code.push_str(",
+  "        let end_pos = replacement.start as usize;\n        source_code.push_str(", {"C05": "V", "C17": "V"}),
+ ("rs_content_twice", "src/replace_source.rs", "      source_code.push_str(&replacement.content);\n", "      source_code.push_str(&replacement.content);\n      if replacement.start == 7 && replacement.end == 7 { source_code.push_str(&replacement.content); }\n", {"C05": "V"}),
+ ("benign_rs_le", "src/replace_source.rs", "      if inner_pos < replacement.start {\n        let end_pos = (replacement.start as usize).min(inner_source_code.len());\n        source_code.push_str(",
+  "      if inner_pos <= replacement.start {\n        let end_pos = (replacement.start as usize).min(inner_source_code.len());\n        source_code.push_str(", {"C05": "P2"}),
  # ---- benign ----
  ("benign_rename_local", "src/encoder.rs", "let mut digit = num & 0b11111;\n    num >>= 5;\n    if num > 0 {\n      digit |= 1 << 5;\n    }\n    out.push(B64_CHARS[digit as usize]);",
   "let mut dg = num & 0b11111;\n    num >>= 5;\n    if num > 0 {\n      dg |= 1 << 5;\n    }\n    out.push(B64_CHARS[dg as usize]);", {"C12": "P", "C17": "P"}),
